@@ -144,8 +144,6 @@ Definition P_propose (i : p1_in) (panicked : bool) (tr : p1_trace) : bool :=
      end.
 
 (* path 2 *)
-Definition good_relays (rs : list fetch_res) : list N :=
-  flat_map (fun r => match r with FClient id true true => [id] | _ => [] end) rs.
 
 Definition P_relays (rs : list fetch_res) (o : outcome (list N) unit) : bool :=
   match o with
@@ -154,7 +152,6 @@ Definition P_relays (rs : list fetch_res) (o : outcome (list N) unit) : bool :=
   end.
 
 (* path 3 *)
-Definition can_name (p : node_client) : bool := match p with NCName _ => true | _ => false end.
 
 Definition P_graffiti (g : list N) (ps : list node_client) (o : outcome (list (list N)) unit) : bool :=
   match o with
@@ -165,12 +162,6 @@ Definition P_graffiti (g : list N) (ps : list node_client) (o : outcome (list (l
   end.
 
 (* path 4 *)
-Definition doc_has_null (d : doc) : bool :=
-  match d with
-  | DV2 d2 => existsb snd (d2_relays d2)
-              || existsb (fun p => match p with None => true | Some p => has_null_prelay p end) (d2_proposers d2)
-  | _ => false
-  end.
 
 Definition doc_rejectable (d : doc) : bool :=
   match d with DMalformed | DVersion _ => true | _ => false end.
@@ -254,8 +245,6 @@ Definition P_head (h : head_in) (o : outcome (option N) unit) : bool :=
   end.
 
 (* path 7 *)
-Definition all_tolerated (l : list failure) : bool :=
-  forallb (fun f => match f with FTolerated => true | _ => false end) l.
 
 Definition P_errbody (s : server) (b : err_body) (o : outcome unit unit) : bool :=
   match o with
